@@ -27,6 +27,14 @@ func c17Plain(f *File, list []ast.Stmt) []ast.Stmt {
 		if is, ok := st.(*ast.IfStmt); ok && f.Str(is.Cond) == "verifhook.Enabled" {
 			continue
 		}
+		// `defer func() { if verifhook.Enabled { … } }()`: a hook that fires on the way out
+		if ds, ok := st.(*ast.DeferStmt); ok {
+			if fl, ok := ds.Call.Fun.(*ast.FuncLit); ok && len(ds.Call.Args) == 0 && len(fl.Body.List) == 1 {
+				if is, ok := fl.Body.List[0].(*ast.IfStmt); ok && f.Str(is.Cond) == "verifhook.Enabled" && is.Else == nil {
+					continue
+				}
+			}
+		}
 		out = append(out, st)
 	}
 	return out
@@ -134,42 +142,168 @@ func c17Swamp(fs *Facts) {
 		return
 	}
 	d, c, g := f.Func("swamp", "Destroy"), f.Func("swamp", "Close"), f.Func("swamp", "WaitForGracefulClose")
+	// The facts are stated over the code with the swamp's own helper methods inlined: a statement
+	// `s.helper(…)` stands for the helper's body whenever that body (transitively) contains the call of
+	// interest.  `reaches[m]`: method m of *swamp contains `call`, directly or through such helpers.
+	methods := map[string]*ast.FuncDecl{}
+	for _, dcl := range f.AST.Decls {
+		if fd, ok := dcl.(*ast.FuncDecl); ok && fd.Body != nil && fd.Recv != nil && len(fd.Recv.List) == 1 &&
+			strings.TrimPrefix(f.Str(fd.Recv.List[0].Type), "*") == "swamp" {
+			methods[fd.Name.Name] = fd
+		}
+	}
+	helperOf := func(st ast.Stmt) string {
+		es, ok := st.(*ast.ExprStmt)
+		if !ok {
+			return ""
+		}
+		call, ok := es.X.(*ast.CallExpr)
+		if !ok {
+			return ""
+		}
+		recv, m := c17Method(f, call)
+		if recv != "s" || methods[m] == nil {
+			return ""
+		}
+		return m
+	}
+	reachesOf := func(call string) map[string]bool {
+		r := map[string]bool{}
+		for changed := true; changed; {
+			changed = false
+			for name, fd := range methods {
+				if r[name] {
+					continue
+				}
+				hit := false
+				ast.Inspect(fd.Body, func(n ast.Node) bool {
+					if _, isFn := n.(*ast.FuncLit); isFn {
+						return false
+					}
+					if st, ok := n.(ast.Stmt); ok {
+						if f.Str(st) == call {
+							hit = true
+						}
+						if h := helperOf(st); h != "" && r[h] {
+							hit = true
+						}
+					}
+					return true
+				})
+				if hit {
+					r[name] = true
+					changed = true
+				}
+			}
+		}
+		return r
+	}
+	const cancelCall, drainCall = "s.goRoutineCancelFunction()", "s.Vigil.WaitForActiveVigilsClosed()"
+	cancels, drains := reachesOf(cancelCall), reachesOf(drainCall)
+	// does the statement (deep, helpers inlined) perform the cancel?
+	var doesCancel func(st ast.Stmt) bool
+	doesCancel = func(st ast.Stmt) bool {
+		hit := false
+		ast.Inspect(st, func(n ast.Node) bool {
+			if _, isFn := n.(*ast.FuncLit); isFn {
+				return false
+			}
+			if x, ok := n.(ast.Stmt); ok {
+				if f.Str(x) == cancelCall {
+					hit = true
+				}
+				if h := helperOf(x); h != "" && cancels[h] {
+					hit = true
+				}
+			}
+			return true
+		})
+		return hit
+	}
+	hasReturn := func(st ast.Stmt) bool {
+		ret := false
+		ast.Inspect(st, func(n ast.Node) bool {
+			if _, isFn := n.(*ast.FuncLit); isFn {
+				return false
+			}
+			if _, isRet := n.(*ast.ReturnStmt); isRet {
+				ret = true
+			}
+			return true
+		})
+		return ret
+	}
+	// inline: top-level statements of fn, with top-level helper calls that reach `call` replaced by their bodies
+	var inline func(fd *ast.FuncDecl, reach map[string]bool, depth int) []ast.Stmt
+	inline = func(fd *ast.FuncDecl, reach map[string]bool, depth int) []ast.Stmt {
+		var out []ast.Stmt
+		for _, st := range c17Plain(f, fd.Body.List) {
+			if h := helperOf(st); h != "" && reach[h] && depth < 4 {
+				out = append(out, inline(methods[h], reach, depth+1)...)
+				continue
+			}
+			out = append(out, st)
+		}
+		return out
+	}
 	dd := Unknown
 	if d != nil {
-		drain := c17Index(f, d.Body.List, "s.Vigil.WaitForActiveVigilsClosed()")
-		cancel := c17Index(f, d.Body.List, "s.goRoutineCancelFunction()")
-		dd = TriOf(drain >= 0 && cancel > drain)
+		// every cancel of the Destroy family (also the one of the close-instead branch) comes after the drain
+		list := inline(d, drains, 0)
+		drain := c17Index(f, list, drainCall)
+		early := false
+		if drain >= 0 {
+			for _, st := range list[:drain] {
+				if doesCancel(st) {
+					early = true
+				}
+			}
+		}
+		late := false
+		if drain >= 0 {
+			for _, st := range list[drain+1:] {
+				if doesCancel(st) {
+					late = true
+				}
+			}
+		}
+		dd = TriOf(drain >= 0 && !early && late)
 		fs.Tri("destroyDrainsThenCancels", dd, c14Where(f, d))
 	} else {
 		fs.Tri("destroyDrainsThenCancels", Unknown, c17SwampPath)
 	}
 	if c != nil {
-		// after `closing = 1` every path must reach the (top-level) cancel: no return in between
-		cancelIdx := c17Index(f, c.Body.List, "s.goRoutineCancelFunction()")
-		closingIdx := c17Index(f, c.Body.List, "atomic.StoreInt32(&s.closing, 1)")
+		// after `closing = 1` every path must reach the cancel (helpers inlined): no return in between
+		list := inline(c, cancels, 0)
+		cancelIdx := c17Index(f, list, cancelCall)
+		closingIdx := c17Index(f, list, "atomic.StoreInt32(&s.closing, 1)")
 		ok := cancelIdx >= 0 && closingIdx >= 0 && closingIdx < cancelIdx
 		if ok {
-			for _, st := range c.Body.List[closingIdx+1 : cancelIdx] {
-				ast.Inspect(st, func(n ast.Node) bool {
-					if _, isFn := n.(*ast.FuncLit); isFn {
-						return false
-					}
-					if _, isRet := n.(*ast.ReturnStmt); isRet {
-						ok = false
-					}
-					return true
-				})
+			for _, st := range list[closingIdx+1 : cancelIdx] {
+				if hasReturn(st) {
+					ok = false
+				}
 			}
 		}
 		fs.Tri("closeCancels", TriOf(ok), c14Where(f, c))
 	} else {
 		fs.Tri("closeCancels", Unknown, c17SwampPath)
 	}
-	// auto-destroy sites: every `s.Destroy()` statement outside Destroy itself is immediately preceded by `s.CeaseVigil()`
+	// auto-destroy sites: every call of a draining method (Destroy and its variants) from outside that family is
+	// immediately preceded by `s.CeaseVigil()`
 	sites, okSites := 0, 0
-	for _, dcl := range f.AST.Decls {
-		fd, ok := dcl.(*ast.FuncDecl)
-		if !ok || fd.Body == nil || fd.Name.Name == "Destroy" {
+	// (family = the methods that drain at their own top level once helpers are inlined; a method that reaches the
+	//  drain only through an auto-destroy site inside a branch is a caller)
+	family := map[string]bool{}
+	for name, fd := range methods {
+		for _, st := range inline(fd, drains, 0) {
+			if f.Str(st) == drainCall {
+				family[name] = true
+			}
+		}
+	}
+	for name, fd := range methods {
+		if family[name] {
 			continue
 		}
 		ast.Inspect(fd, func(n ast.Node) bool {
@@ -179,7 +313,7 @@ func c17Swamp(fs *Facts) {
 			}
 			list := c17Plain(f, blk.List)
 			for i, st := range list {
-				if f.Str(st) == "s.Destroy()" {
+				if h := helperOf(st); h != "" && family[h] {
 					sites++
 					if i > 0 && f.Str(list[i-1]) == "s.CeaseVigil()" {
 						okSites++
